@@ -19,9 +19,6 @@ import (
 	"fmt"
 	"io"
 	"os"
-	"runtime"
-	"runtime/pprof"
-	"runtime/trace"
 	"sort"
 	"strings"
 	"sync"
@@ -44,11 +41,11 @@ type group struct {
 }
 
 var groups = []group{
-	{"dedup", []string{"L1", "L1b", "P1"}, []string{"L1", "P1"}},      // one issuance chain, both entry types
-	{"evict", []string{"L1", "L4", "L2"}, []string{"L4"}},              // three issuance chains: LRU of size 1 / 2 evicts
-	{"short", []string{"L0", "RS", "P0"}, []string{"RS", "P0"}},        // issued by a root; the leaf is a root (empty chain)
-	{"sameleaf", []string{"L1", "L1r", "PP"}, []string{"L1r"}},        // one leaf posted twice; precert via pre-issuer
-	{"long", []string{"L3", "P4", "PS"}, []string{"P2"}},               // three intermediates; second root; refused precert
+	{"dedup", []string{"L1", "L1b", "P1"}, []string{"L1", "P1"}}, // one issuance chain, both entry types
+	{"evict", []string{"L1", "L4", "L2"}, []string{"L4"}},        // three issuance chains: LRU of size 1 / 2 evicts
+	{"short", []string{"L0", "RS", "P0"}, []string{"RS", "P0"}},  // issued by a root; the leaf is a root (empty chain)
+	{"sameleaf", []string{"L1", "L1r", "PP"}, []string{"L1r"}},   // one leaf posted twice; precert via pre-issuer
+	{"long", []string{"L3", "P4", "PS"}, []string{"P2"}},         // three intermediates; second root; refused precert
 }
 
 func idx(names []string) []int {
@@ -217,18 +214,13 @@ func TestCheck(t *testing.T) {
 		}
 		scs = keep
 	}
-	if n := os.Getenv("C14_LIMIT"); n != "" {
-		var k int
-		fmt.Sscan(n, &k)
-		if k < len(scs) {
-			scs = scs[:k]
-		}
-	}
 	r.Rule("scenario = (entries pre-stored in the default layout, client histories over submit / sequence / read-everything-through-both-endpoints, cache kind in {noop, LRU 1/2/1000, adversarial hit-by-default, adversarial miss-by-default}, fault menu); per scenario every choice vector within the deviation bound over: which pending store / cache call is answered next, with which answer (ok; Add error; FindByKey error / no rows / nil / empty / truncated / trailing byte / wrong outer tag / bit flip; cache Get hit / miss / error; cache Set stored / dropped / error), and when the next operation starts. Plus exhaustive sweeps: every truncation length and every single-bit flip of a stored row; every encoding of the four extra-data layouts for every (leaf, issuance chain) pair. distinct_nontrivial = distinct (scenario, per-request status vector) outcomes + sweep cases")
 	r.Assume("the backend is the reference backend ref/reflog and never fails (backend faults belong to C08)",
 		"store and cache calls are atomic at the granularity of the IssuanceChainStorage / IssuanceChainCache interfaces; accesses between calls are covered by the free-running race pass",
 		"real LRU caches are built with TTL 0 (no janitor goroutine); expiry and every eviction policy are over-approximated by the adversarial cache, which may miss on any read and drop any write",
-		"an unknown hash is answered with an error (sql.ErrNoRows), as both shipped storage drivers do; a nil row without error is part of the fault menu")
+		"an unknown hash is answered with an error (sql.ErrNoRows), as both shipped storage drivers do; a nil row without error is part of the fault menu",
+		"single-client histories: by default a detached cache write lands after its request and before the next operation; a later landing, a cache deviation (miss / hit / drop) and a fault cost 1 each, explored up to the scenario's bound (quick 1; thorough 2 at depth 3, with up to 2 faults). Concurrent scenarios are preemption-bounded: continuing the client that moved last, or any client once that one finished its operation, is free; a preemption, a cache deviation and a fault cost 1 each (quick bound 1, thorough 2)",
+		"certificates are re-signed with deterministic (RFC 6979) ECDSA so that row lengths, hence the number of truncations and bit flips, are the same in every run")
 	// default-mode runs of every single-client history
 	direct := map[string][]*request{}
 	var keys []string
@@ -252,21 +244,6 @@ func TestCheck(t *testing.T) {
 	fmt.Printf("phase direct done at %.1fs\n", time.Since(t0).Seconds())
 	r.Set("default_mode_histories", len(keys))
 	r.Set("scenarios", len(scs))
-	if pf := os.Getenv("C14_PROF"); pf != "" { // debugging aid
-		f, _ := os.Create(pf)
-		pprof.StartCPUProfile(f)
-		defer pprof.StopCPUProfile()
-		runtime.SetMutexProfileFraction(1)
-		runtime.SetBlockProfileRate(10000)
-	}
-	if tf := os.Getenv("C14_TRACE"); tf != "" {
-		f, _ := os.Create(tf)
-		trace.Start(f)
-		defer trace.Stop()
-	}
-	if n := os.Getenv("C14_WORKERS"); n != "" {
-		fmt.Sscan(n, &enum.Workers)
-	}
 	var exec, pts, div, maxDepth atomic.Int64
 	perClass := map[string]*atomic.Int64{}
 	for _, sc := range scs {
@@ -363,16 +340,6 @@ func TestCheck(t *testing.T) {
 	r.Set("decision_points", pts.Load())
 	r.Set("max_depth", maxDepth.Load())
 	r.Set("divergent_branches", div.Load())
-	pprof.StopCPUProfile()
-	trace.Stop()
-	if pf := os.Getenv("C14_PROF"); pf != "" {
-		f, _ := os.Create(pf + ".mutex")
-		pprof.Lookup("mutex").WriteTo(f, 0)
-		f.Close()
-		f, _ = os.Create(pf + ".block")
-		pprof.Lookup("block").WriteTo(f, 0)
-		f.Close()
-	}
 	fmt.Printf("phase explore done at %.1fs cpu=%.1fs\n", time.Since(t0).Seconds(), cpuSeconds())
 	sweepRows(r, th)
 	fmt.Printf("phase sweep done at %.1fs\n", time.Since(t0).Seconds())
